@@ -109,7 +109,7 @@ Inductive op :=
 | OSpawnUp (t ns d : N)          (* a client sends the upload of d to namespace ns *)
 | OSpawnEx (t ns d : N)          (* a worker hands stored row (ns,d) to the executor *)
 | OSpawnFc (t d : N)             (* forced cleanup reaches d (expired or not owned) *)
-| OStep (t : N) (up : bool)      (* thread t takes its next step; up = the backend answers *)
+| OStep (t : N) (up : bool)      (* thread t takes its next step; up = the backend | the task table answers *)
 | ODel (d : N)                   (* cleanup pass | LRU eviction | DELETE reaches d: entry.Delete *)
 | ORestart                       (* crash + restart: threads and the file map are gone *)
 | OObs.
@@ -172,8 +172,12 @@ Definition step_thread (fx : bool) (t : N) (th : thread) (up : bool) (s : st) : 
                      (tset t (TUp ns d UAdd) (s_thr s)), RNext)
           else (with_thr s (tremove t (s_thr s)), RErr)
       | UAdd =>                                         (* server.go:965, manager.go:127-144 *)
-          (mkst (s_files s) (add_key (ns, d) (s_tasks s))
-                (s_back s) (s_acked s) (tset t (TUp ns d UMeta) (s_thr s)), RNext)
+          (* up = false here: the manager's Add fails (database locked, manager closing); writeBack
+             returns the error (:967), the persist flag set before stays, nothing is acknowledged *)
+          if up
+          then (mkst (s_files s) (add_key (ns, d) (s_tasks s))
+                     (s_back s) (s_acked s) (tset t (TUp ns d UMeta) (s_thr s)), RNext)
+          else (with_thr s (tremove t (s_thr s)), RErr)
       | UMeta =>                                        (* server.go:970 *)
           if present d (s_files s)
           then (with_thr s (tset t (TUp ns d UAck) (s_thr s)), RNext)
